@@ -378,6 +378,14 @@ func CheckC17(o *Outcome) *vh.Finding {
 		if r.Variant == "valid" {
 			wantOK, wantFailed = 1, 0
 		}
+		if r.Variant == "moreoutputs" {
+			// the active configuration plus one more output: the property is satisfied by a refusal (old configuration goes
+			// on) as well as by a successful reload (every record still reaches the outputs it had) - but by one of them
+			if n := r.OK + r.Failed; n < 1 || n > float64(max(1, r.Burst)) {
+				return vh.Fail("reload:counter", "generation %d: a reload with one more output changed slogagent_reloads_total by success=%v failure=%v", r.Gen, r.OK, r.Failed)
+			}
+			continue
+		}
 		if r.Burst > 1 {
 			// several signals for one scheduled reload: signals that arrive while a reload runs are coalesced (at most one
 			// more reload is queued), and a queued reload may read the configuration file before or after the harness has
